@@ -104,6 +104,8 @@ def gen(seed: int, tier: str, idx=None):
             slots = [n for n, sl in g.ms.slots.items() if sl.status == "good"]
             if slots:
                 g.emit({"op": "restart", "d": 0, "slot": rng.choice(slots)})
+                if rng.random() < 0.6:
+                    set_sizes_on_reopened(g, rng)
     # 1..3 closing cycles with no edits in between: the values must keep surviving (no drift)
     for _ in range(rng.choice([1, 2, 3])):
         if rng.random() < 0.3:
@@ -112,6 +114,24 @@ def gen(seed: int, tier: str, idx=None):
         g.emit({"op": "save", "d": 0, "slot": slot})
         g.emit({"op": "restart", "d": 0, "slot": slot})
     return cfg, g.ops
+
+
+def set_sizes_on_reopened(g, rng) -> None:
+    """Right after a restart nothing has been queried yet and the strokes still sit unread in the file: set sizes on
+    rows/columns that carry strokes (and on their neighbours), then save and reopen without any observer in between."""
+    m = g.ms.docs[0].model
+    for s, t, tm in list(m.tables())[:3]:
+        rows = sorted({k[0] for k in tm.hedge if k[0] < tm.nrows} | {k[0] - 1 for k in tm.hedge if k[0] >= 1})
+        cols = sorted({k[1] for k in tm.vedge if k[1] < tm.ncols} | {k[1] - 1 for k in tm.vedge if k[1] >= 1})
+        for r in rows[:3]:
+            g.emit({"op": "set_row_height", "d": 0, "s": s, "t": t, "r": r, "h": rng.randint(25, 300)})
+        for c in cols[:3]:
+            g.emit({"op": "set_col_width", "d": 0, "s": s, "t": t, "c": c, "w": rng.randint(25, 300)})
+        if not rows and not cols and rng.random() < 0.5:
+            g.emit({"op": "set_col_width", "d": 0, "s": s, "t": t, "c": g.index(tm.ncols), "w": rng.randint(25, 300)})
+    slot = rng.choice(ALL_SLOTS)
+    g.emit({"op": "save", "d": 0, "slot": slot})
+    g.emit({"op": "restart", "d": 0, "slot": slot})
 
 
 def setup(sim: Sim) -> None:
